@@ -26,7 +26,7 @@ use libfuzzer_sys::fuzz_target;
 use sigw::{SigWorld, CHILDREN, PARENT, PUBLISHERS};
 use world::WorldCfg;
 
-const KNOWN: [&str; 2] = ["resources/asres.rs", "publication.rs"];
+const KNOWN: [&str; 2] = ["src/resources/asn.rs", "src/ca/publication.rs"];
 
 fn known(loc: &str) -> bool {
     loc.contains("rpki-") && KNOWN.iter().any(|k| loc.contains(k))
@@ -121,7 +121,14 @@ fuzz_target!(|data: &[u8]| {
             }
             Ok(Err(_)) => {
                 // refused: nothing may have changed
-                match st.sw.observe() {
+                // (the audit record of a refused authentic request is legitimate: versions are not compared)
+                let strip = |mut o: sigw::Observed| {
+                    o.parent_version = 0;
+                    o.repo_version = 0;
+                    o
+                };
+                let before = strip(before);
+                match st.sw.observe().map(strip) {
                     Ok(after) if after == before => {}
                     Ok(after) => die(st, &format!("c16-error-changed-state: before {before:?} after {after:?}"), data),
                     Err(e) => die(st, &format!("c16-state-unreadable-after-error: {e:?}"), data),
